@@ -18,3 +18,7 @@ Proof. vm_compute. reflexivity. Qed.
    NewRegexpMatcherFromList of exactly the list the flag parser produced *)
 Lemma ob_wiring : wiring = wiring_expected.
 Proof. vm_compute. reflexivity. Qed.
+
+(* deny-domains and direct-domains consult the name as written and without its trailing dot *)
+Lemma ob_site_forms : deny_also_without_trailing_dot = true /\ direct_also_without_trailing_dot = true.
+Proof. vm_compute. split; reflexivity. Qed.
